@@ -264,6 +264,63 @@ def check_opp(case):
     return Result(vio or None, classes, inside or bad_then_good)
 
 
+# ---- OPP: every single-byte corruption of a report frame (enumerated, replayed from corpus/C14/opp_corrupt) --------------
+def check_opp_corrupt(case):
+    """case = {"blocks": [[board, matrix, state, pos], ...]}: for every block all 255 wrong values of byte `pos` of the
+    report frame are tried. A corrupted frame must change no switch state (unless the result happens to be a valid
+    frame of the same board and command), and after it the decoder must take valid frames again (<= 3 of them)."""
+    rigcase, plat, comm, seen = opp_rig()
+    vio = []
+    n = 0
+    valid_by_chance = 0
+    for board, matrix, state, pos in case["blocks"]:
+        good = opp_frame(board, bool(matrix), state)
+        pos = pos % len(good)
+        _, base_state, e0 = opp_deliver([])
+        _, want_after_probe, e1 = opp_deliver([good + b"\xff"])
+        for val in range(256):
+            if val == good[pos]:
+                continue
+            n += 1
+            f = bytearray(good)
+            f[pos] = val
+            f = bytes(f)
+            crc_ok = crc8(f[:-1]) == f[-1]
+            _, st1, err = opp_deliver([f + b"\xff"])
+            if err is not None:
+                vio.append(violation("opp:decoder-raises:" + type(err).__name__, "OPP decoder raised %r on frame %s" % (err, f.hex())))
+                break
+            if crc_ok and pos >= 2:
+                valid_by_chance += 1        # another valid report of the same board: whatever it says is right
+            elif crc_ok:
+                valid_by_chance += 1        # address/command changed and the CRC still matches: not a corruption
+            elif st1 != base_state:
+                diff = {k: (base_state[k], st1[k]) for k in st1 if st1[k] != base_state[k]}
+                vio.append(violation("opp:bad-frame-changed-state", "frame %s (byte %d of %s set to %02x, CRC wrong) changed switch "
+                                     "states (before, after): %r" % (f.hex(), pos, good.hex(), val, diff)))
+                break
+            _, st2, err = opp_deliver([f + b"\xff", good + b"\xff", good + b"\xff", good + b"\xff"])
+            if err is not None:
+                vio.append(violation("opp:decoder-raises:" + type(err).__name__, "OPP decoder raised %r after frame %s" % (err, f.hex())))
+                break
+            if st2 != want_after_probe and not (crc_ok and pos < 2):
+                diff = {k: (want_after_probe[k], st2[k]) for k in st2 if st2[k] != want_after_probe[k]}
+                vio.append(violation("opp:not-resynchronised", "after the corrupted frame %s three valid frames %s leave states "
+                                     "(expected, got) %r" % (f.hex(), good.hex(), diff)))
+                break
+        if vio:
+            break
+    classes = ["single-byte corruptions tried: %d" % n, "#cov:" + ",".join("%x/%d/%d" % (b[0], b[1], b[3]) for b in case["blocks"])]
+    if valid_by_chance:
+        classes.append("corruption that is a valid frame by chance")
+    return Result(vio or None, classes, True)
+
+
+OPP_CORRUPT_BLOCKS = [[0x20, 0, 0x0000FF0C, p] for p in range(7)] + [[0x21, 0, 0xFFFF00F3, p] for p in range(7)] + \
+                     [[0x23, 1, (1 << 63) | 0xF0F0, p] for p in range(11)]
+case_opp_corrupt = st.sampled_from(OPP_CORRUPT_BLOCKS).map(lambda b: {"blocks": [b]})
+
+
 # ---- FAST ---------------------------------------------------------------------------------------------
 FAST_SW = list(range(0, 12)) + [0x28, 0x38, 0x3a]
 fast_item = st.one_of(
@@ -604,4 +661,7 @@ SUBCHECKS = [
     SubCheck("pkone", lambda: case_pk, check_pkone, quick=1500, thorough=40000, procs_quick=2,
              fuzz={"quick": 2000, "thorough": 150000, "modules": ['mpf.platforms.pkone.pkone', 'mpf.platforms.pkone.pkone_serial_communicator']}),
     SubCheck("flow", lambda: case_flow, check_flow, quick=600, thorough=20000, procs_quick=2),
+    # all single-byte corruptions: the enumeration lives in corpus/C14/opp_corrupt (replayed on every run); the
+    # generated part only re-draws blocks
+    SubCheck("opp_corrupt", lambda: case_opp_corrupt, check_opp_corrupt, quick=20, thorough=100, procs_quick=1),
 ]
